@@ -194,6 +194,12 @@ HAND = [
     {"oneOf": [{"type": "object", "properties": {"k": {"enum": ["a"]}, "p": {"type": "boolean"}}, "required": ["k"]},
                {"type": "object", "properties": {"k": {"enum": ["b"]}, "n": {"type": "string"}}, "required": ["k", "n"]}]}], "defs": {},
   "cands": [{}, {"k": "a"}, {"k": "b"}, {"k": "b", "n": "s"}, {"k": "a", "n": 1, "p": True}, {"k": "c"}]},
+ # a subschema whose only assertion is `const`: it narrows (or empties) what the other subschemas enumerate, wherever it stands
+ {"tag": "hand:const-outside-ref", "schemas": [ref("Color"), {"const": "blue"}], "defs": {"Color": {"type": "string", "enum": ["red", "green"]}}, "cands": ["red", "green", "blue", 1]},
+ {"tag": "hand:const-inside-ref", "schemas": [{"const": "red", "description": "only red"}, ref("Color")], "defs": {"Color": {"type": "string", "enum": ["red", "green"]}}, "cands": ["red", "green", "blue"]},
+ {"tag": "hand:const-enum", "schemas": [{"enum": ["a", "b", "c"]}, {"const": "c"}, {"type": "string"}], "defs": {}, "cands": ["a", "b", "c", "d"]},
+ {"tag": "hand:const-const", "schemas": [{"const": "a"}, {"const": "b"}], "defs": {}, "cands": ["a", "b", "c"]},
+ {"tag": "hand:const-int-range", "schemas": [{"type": "integer", "minimum": 0, "maximum": 10}, {"const": 11}], "defs": {}, "cands": [0, 10, 11]},
 ]
 
 PROPS = ["a", "b", "c", "d", "e"]
